@@ -432,15 +432,19 @@ class List(list, base.Symbolic, pg_typing.CustomTyping):
         self._update_children_indices()
       else:
         list.__setitem__(self, index, new_value)
-        # Detach old value from object tree.
-        if isinstance(old_value, base.TopologyAware):
-          old_value.sym_setparent(None)
+        self._detach(old_value)
     else:
       super().append(new_value)
     return base.FieldUpdate(
         self.sym_path + index, self,
         self._value_spec.element if self._value_spec else None,
         old_value, new_value)
+
+  def _detach(self, value: Any) -> None:
+    """Detaches a removed or replaced element from the object tree."""
+    if isinstance(value, base.TopologyAware):
+      value.sym_setparent(None)
+      value.sym_setpath(utils.KeyPath())
 
   def _update_children_indices(self) -> None:
     """Updates the paths of children whose position in the list has changed."""
@@ -612,6 +616,7 @@ class List(list, base.Symbolic, pg_typing.CustomTyping):
       index += len(self)
     old_value = self.sym_getattr(index)
     super().__delitem__(index)
+    self._detach(old_value)
     self._update_children_indices()
 
     if flags.is_change_notification_enabled():
@@ -751,6 +756,8 @@ class List(list, base.Symbolic, pg_typing.CustomTyping):
     if self._value_spec and self._value_spec.min_size > 0:
       raise ValueError(
           f'List cannot be cleared: min size is {self._value_spec.min_size}.')
+    for item in self.sym_values():
+      self._detach(item)
     super().clear()
 
   def sort(self, *, key=None, reverse=False) -> None:
